@@ -1,8 +1,15 @@
 """C12 -- generated BGPsec signatures verify under an independent RFC 8205 implementation."""
 from . import C11
 
-INFO = {"outside": "wip", "assumptions": []}
-MANIFEST = {"text": "wip", "note": "wip"}
+INFO = {
+    "outside": 'as C11',
+    "assumptions": ['as C11'],
+}
+MANIFEST = {
+    "text": 'Same stub layer for rtr_bgpsec_generate_signature: the bytes signed equal the RFC 8205 signing sequence produced by the same independent serialiser that C11 checks validation against (so signing layout == validation layout at the corresponding offset), the returned segment carries exactly what ECDSA_sign produced, and unloadable keys / unsupported suite / AFI / wrong counts yield their codes.',
+    "note": "That ECDSA_sign produces a well-formed DER signature and that it verifies under the matching public key is OpenSSL's contract (environment).",
+    "technique": 'CBMC on real bgpsec.c signing path with OpenSSL API stubs',
+}
 
 
 def jobs(tier):
